@@ -1,5 +1,6 @@
 import JominiModel.Proofs.BinSkip
 import JominiModel.Proofs.SwarReader
+import JominiModel.Proofs.TextSkip
 /-
 C09 — Skipping a container or value lands exactly after its matching close.
 
